@@ -394,6 +394,11 @@ def run_impl(case):
         key = case["key"]
         if key[0] == "bool":
             t, f = I.partition(src())
+        elif case.get("flavour") == "attr":        # key='k': the attribute holds True / False
+            t, f = I.partition(src(), "k")
+        elif case.get("flavour") == "list":        # key=[True, False, ...] parallel to a sized src
+            s = set(key[1])
+            t, f = I.partition(src(), [tk in s for tk in case["src"]])
         else:
             s = set(key[1])
             t, f = I.partition(src(), lambda x: untok(ek, x) in s)
@@ -687,7 +692,15 @@ def _one(rng, tier, fn, src=None):
     if fn == "partition":
         ek, mk, lo = _pick_container(rng, fn)
         key = ["bool"] if rng.random() < 0.4 else ["in", sorted(rng.sample(range(7), rng.randint(0, 4)))]
-        return {"fn": fn, "ek": ek, "mk": mk, "src": get_src(lo), "key": key}
+        flavour = "callable"
+        if key[0] == "in":
+            r = rng.random()
+            if r < 0.25:
+                flavour, ek, mk, lo = "attr", "tok", rng.choice(MKS), 0
+            elif r < 0.45:
+                flavour = "list"
+                ek, mk, lo = _pick_container(rng, fn, sized=True)
+        return {"fn": fn, "ek": ek, "mk": mk, "src": get_src(lo), "key": key, "flavour": flavour}
     if fn == "chunk_ranges":
         big = tier != "quick"
         chunk = rng.choice([1, 2, 3, 3, 4, 5, 5, 7, 8] + ([16, 100] if big else []))
@@ -860,7 +873,7 @@ def distribution(d, case, obs):
         mark("ranges:error", obs["ranges"][0] != "ok")
         mark("ranges:align", case["align"])
         mark("ranges:overlap", case["overlap"] > 0)
-    elif fn in ("unique", "redundant", "bucketize"):
+    elif fn in ("unique", "redundant", "bucketize", "partition"):
         mark(fn + ":key=" + case["key"][0] + "/" + case.get("flavour", ""))
     if case.get("form", "int") != "int":
         mark("int-coercible:" + case["form"])
